@@ -121,6 +121,23 @@ func Corpus() []CorpusCase {
 		objs = append(objs, p.HTTPRoute("ns", "hr", 4, par, nil, p.HTTPRule([]gatewayv1.HTTPRouteMatch{p.PathMatch("PathPrefix", "/")}, two(1, 1)...)))
 		mk("backend-tls-policy-on-one-of-two-backends", objs)
 	}
+	for _, target := range []string{"HTTPRoute", "Gateway"} {
+		// three ClientSettingsPolicies of three ages on one target, all setting body.maxSize: only the oldest may
+		// stay valid, otherwise client_max_body_size is duplicated in the scope (loadable on the unchanged tree)
+		objs, par := base("ns")
+		objs = append(objs, p.HTTPRoute("ns", "hr", 3, par, nil, p.HTTPRule([]gatewayv1.HTTPRouteMatch{p.PathMatch("PathPrefix", "/")}, two(1)...)))
+		for i, n := range []string{"csp-a", "csp-b", "csp-c"} {
+			csp := &ngfAPI.ClientSettingsPolicy{ObjectMeta: p.Meta("ns", n, 10+i)}
+			name := "hr"
+			if target == "Gateway" {
+				name = "gw"
+			}
+			csp.Spec.TargetRef = v1alpha2.LocalPolicyTargetReference{Group: "gateway.networking.k8s.io", Kind: gatewayv1.Kind(target), Name: gatewayv1.ObjectName(name)}
+			csp.Spec.Body = &ngfAPI.ClientBody{MaxSize: ptr(ngfAPI.Size([]string{"1m", "2m", "3m"}[i]))}
+			objs = append(objs, csp)
+		}
+		mk("three-conflicting-csp-on-"+strings.ToLower(target), objs)
+	}
 	{
 		// HTTPRoute and GRPCRoute with the same namespace/name: the backend group key has no route kind
 		objs, par := base("ns")
@@ -133,6 +150,36 @@ func Corpus() []CorpusCase {
 		}
 		objs = append(objs, p.GRPCRoute("ns", "same", 4, par, nil, gr))
 		mk("http-and-grpc-route-same-name", objs)
+	}
+	{
+		// HTTPRoute ns/same and GRPCRoute ns/same serve the same host:port/path, each with its own ClientSettingsPolicy
+		objs, par := base("ns")
+		objs = append(objs, p.HTTPRoute("ns", "same", 3, par, nil, p.HTTPRule([]gatewayv1.HTTPRouteMatch{p.PathMatch("PathPrefix", "/")}, two(1)...)))
+		gr := gatewayv1.GRPCRouteRule{}
+		for _, b := range two(1) {
+			gr.BackendRefs = append(gr.BackendRefs, gatewayv1.GRPCBackendRef{BackendRef: p.BackendRef(b)})
+		}
+		objs = append(objs, p.GRPCRoute("ns", "same", 4, par, nil, gr))
+		for i, kind := range []string{"HTTPRoute", "GRPCRoute"} {
+			csp := &ngfAPI.ClientSettingsPolicy{ObjectMeta: p.Meta("ns", []string{"csp-http", "csp-grpc"}[i], 10+i)}
+			csp.Spec.TargetRef = v1alpha2.LocalPolicyTargetReference{Group: "gateway.networking.k8s.io", Kind: gatewayv1.Kind(kind), Name: "same"}
+			csp.Spec.Body = &ngfAPI.ClientBody{MaxSize: ptr(ngfAPI.Size([]string{"1m", "2m"}[i]))}
+			objs = append(objs, csp)
+		}
+		mk("csp-on-http-and-grpc-route-same-name-same-path", objs)
+	}
+	{
+		// two routes share cafe.example.com:80/x but have different hostname LISTS; each has its own ClientSettingsPolicy
+		objs, par := base("ns")
+		objs = append(objs, p.HTTPRoute("ns", "r1", 3, par, []string{"cafe.example.com"}, p.HTTPRule([]gatewayv1.HTTPRouteMatch{p.PathMatch("PathPrefix", "/x")}, two(1)...)))
+		objs = append(objs, p.HTTPRoute("ns", "r2", 4, par, []string{"cafe.example.com", "foo.example.com"}, p.HTTPRule([]gatewayv1.HTTPRouteMatch{p.PathMatch("PathPrefix", "/x")}, two(1)...)))
+		for i, rt := range []string{"r1", "r2"} {
+			csp := &ngfAPI.ClientSettingsPolicy{ObjectMeta: p.Meta("ns", "csp-"+rt, 10+i)}
+			csp.Spec.TargetRef = v1alpha2.LocalPolicyTargetReference{Group: "gateway.networking.k8s.io", Kind: "HTTPRoute", Name: gatewayv1.ObjectName(rt)}
+			csp.Spec.Body = &ngfAPI.ClientBody{MaxSize: ptr(ngfAPI.Size([]string{"1m", "2m"}[i]))}
+			objs = append(objs, csp)
+		}
+		mk("csp-on-two-routes-sharing-host-and-path", objs)
 	}
 	{
 		// HTTPS listener without hostname + a route without hostnames: two servers `listen 443 ssl; server_name ~^;`
